@@ -72,7 +72,13 @@ func c11Ref(s c11Set, serverName string, strict bool) *c11Cert {
 		return nil
 	}
 	name := strings.TrimRight(strings.ToLower(serverName), ".")
-	names := func(c *c11Cert) []string { return append([]string{c.CN}, c.SANs...) }
+	names := func(c *c11Cert) []string {
+		var out []string
+		for _, n := range append([]string{c.CN}, c.SANs...) {
+			out = append(out, strings.ToLower(n))
+		}
+		return out
+	}
 	var exact, wild []*c11Cert
 	wc := ""
 	if i := strings.Index(name, "."); i >= 0 {
@@ -112,7 +118,7 @@ func c11Acceptable(s c11Set, serverName string, strict bool) map[string]bool {
 			return false
 		}
 		for _, x := range append([]string{c.CN}, c.SANs...) {
-			if x == n {
+			if strings.ToLower(x) == n {
 				return true
 			}
 		}
@@ -174,6 +180,10 @@ func genC11Set(r *rand.Rand, tag string) c11Set {
 	n := 1 + r.Intn(4)
 	var s c11Set
 	pool := []string{"a.x.test", "b.x.test", "x.test", "*.x.test", "*.a.x.test", "c.y.test", "*.y.test", "y.test", "other.org"}
+	if r.Intn(5) == 0 {
+		// certificates whose names are written with capitals: DNS names compare without regard to case
+		pool = []string{"A.x.Test", "b.x.test", "X.TEST", "*.X.test", "*.a.x.test", "C.Y.test", "*.Y.TEST", "y.test", "Other.ORG"}
+	}
 	for i := 0; i < n; i++ {
 		cn := choose(r, pool)
 		sans := subset(r, pool, 3)
@@ -478,6 +488,7 @@ func c11BadHistory(c *ctx, lc *logCounter, h int, kind string) {
 		os.WriteFile(filepath.Join(dir, name+"-key.pem"), key, 0o644)
 	}
 	var requests atomic.Int64
+	var failMode atomic.Int32 // http source: 1 = the list URL answers 503 with an error page, 2 = the files answer 500
 	var src cert.Source
 	const refresh = time.Second
 	if kind == "path" {
@@ -486,12 +497,23 @@ func c11BadHistory(c *ctx, lc *logCounter, h int, kind string) {
 		mux := http.NewServeMux()
 		mux.HandleFunc("/certs/list", func(w http.ResponseWriter, r *http.Request) {
 			requests.Add(1)
+			if failMode.Load() == 1 {
+				http.Error(w, "<html><body>503 Service Unavailable: upstream maintenance</body></html>", http.StatusServiceUnavailable)
+				return
+			}
 			es, _ := os.ReadDir(dir)
 			for _, e := range es {
 				fmt.Fprintf(w, "/%s\n", e.Name())
 			}
 		})
-		mux.Handle("/certs/", http.StripPrefix("/certs/", http.FileServer(http.Dir(dir))))
+		files := http.StripPrefix("/certs/", http.FileServer(http.Dir(dir)))
+		mux.HandleFunc("/certs/", func(w http.ResponseWriter, r *http.Request) {
+			if failMode.Load() == 2 {
+				http.Error(w, "internal error", http.StatusInternalServerError)
+				return
+			}
+			files.ServeHTTP(w, r)
+		})
 		ln, err := net.Listen("tcp", "127.0.0.1:0")
 		if err != nil {
 			c.R.Inconcl("listen: %v", err)
@@ -544,6 +566,20 @@ func c11BadHistory(c *ctx, lc *logCounter, h int, kind string) {
 			os.WriteFile(filepath.Join(dir, "g0-cert.pem"), good0.CertPEM[:len(good0.CertPEM)/2], 0o644)
 		}},
 	}
+	if kind == "http" {
+		// the server itself fails: error pages instead of the list or of the files
+		phases = append(phases, struct {
+			name string
+			make func()
+		}{"list-url-answers-503", func() {
+			os.WriteFile(filepath.Join(dir, "g0-cert.pem"), good0.CertPEM, 0o644)
+			failMode.Store(1)
+		}}, struct {
+			name string
+			make func()
+		}{"file-urls-answer-500", func() { failMode.Store(2) }})
+	}
+	defer failMode.Store(0)
 	for _, ph := range phases {
 		ph.make()
 		time.Sleep(1500 * time.Millisecond) // let the watcher notice
@@ -580,6 +616,7 @@ func c11BadHistory(c *ctx, lc *logCounter, h int, kind string) {
 			}
 		}
 	}
+	failMode.Store(0)
 	// remove the bad material and add a new good certificate: it must be published
 	os.WriteFile(filepath.Join(dir, "g0-cert.pem"), good0.CertPEM, 0o644)
 	os.Remove(filepath.Join(dir, "zz-bad-cert.pem"))
